@@ -15,14 +15,23 @@
    with the same result and the same fuel); a dead expression that fails in the source
    (e.g. an out-of-bounds Load under an Emit) is not evaluated after the pass.
 
+     - CompactUnused, FULL statement (functions AND globals removed): behaviour preserved up
+       to the order-preserving renaming of memory cells (Passes/CellRename*.v: values carry
+       cells inside pointers; every value operator of the reference semantics commutes with
+       the renaming); for inputs and results without pointers the results are equal;
+     - CompactUnused and CompactConstants idempotent (no hypotheses).
+
    Not proved (model tie + differential execution only, see checks/c13.py):
-   CompactConstants, CompactTypes, ReorderTypes, DeduplicateEmits, InlineUserFunctions,
-   sroa/mem2reg/dce. *)
+   behaviour preservation of CompactConstants, CompactTypes, ReorderTypes, DeduplicateEmits,
+   InlineUserFunctions (modelled in Passes/Inline.v, tied structurally), sroa/mem2reg/dce. *)
 From Coq Require Import List Arith Bool String ZArith.
 Import ListNotations.
 Require Import Naga.IR.Syntax Naga.IR.Values Naga.IR.Sem.
 Require Import Naga.Passes.Remap Naga.Passes.Compact Naga.Passes.RenameSound.
 Require Import Naga.Passes.CompactExprProofs Naga.Passes.CompactExprIdem Naga.Passes.CompactUnusedProofs.
+Require Import Naga.Passes.CellRenameOps Naga.Passes.CellRenameSound Naga.Passes.CompactUnusedIdem
+               Naga.Passes.CompactConstIdem Naga.Passes.CompactUnusedFull.
+Require Import Naga.Passes.Inline Naga.Passes.InlineProofs Naga.Passes.InlineStale.
 
 (* The general lemma.  m' is m with every function renumbered through some live set
    (fspec: the live set is closed under operands and contains every statement operand;
@@ -113,3 +122,153 @@ Example ex_compact_unused_changes :
   /\ map f_name (m_functions (compact_unused ex_module)) = ["live"]
   /\ run_entry 20 (compact_unused ex_module) 0 [None] [] = Done ([VU32 30], None).
 Proof. vm_compute. repeat split; reflexivity. Qed.
+
+(* ====================================================================== *)
+(* Round 3: removal of globals (cell renaming), idempotence                 *)
+
+(* The general lemma for dropping global variables.  m' is m with the globals outside [ug]
+   dropped (order kept) and [EGlobalVariable g] renumbered to [rank ug g] in every function
+   ([frel_g]); the module-scope expression arena mentions no global.  Memory cell c of m is
+   cell [rank (cell_live m ug) c] of m'; [vren]/[oren] rename the cells inside pointers,
+   [vok]/[ook] say that every pointer names a live cell.  For ALL such m, m', fuel, inputs. *)
+Theorem c13_cell_rename_sound :
+  forall (m m' : module) (ug : nat -> bool),
+    m_types m' = m_types m -> m_constants m' = m_constants m -> m_global_exprs m' = m_global_exprs m ->
+    m_globals m' = keep ug (m_globals m) ->
+    forallb not_globalvar (m_global_exprs m) = true ->
+    (forall i f, nth_error (m_functions m) i = Some f ->
+                 exists f', nth_error (m_functions m') i = Some f' /\ frel_g m ug f f') ->
+    (forall i e, nth_error (m_entry_points m) i = Some e ->
+                 exists e', nth_error (m_entry_points m') i = Some e' /\ frel_g m ug (ep_func e) (ep_func e')) ->
+    forall fuel ep gs args cells ret,
+      forallb (ook (cell_live m ug)) gs = true -> forallb (vok (cell_live m ug)) args = true ->
+      run_entry fuel m ep gs args = Done (cells, ret) ->
+      run_entry fuel m' ep (gren m ug gs) (map (vren (cell_live m ug)) args)
+      = Done (map (vren (cell_live m ug)) (keep ug cells), oren (cell_live m ug) ret).
+Proof. exact cell_sim_run_entry. Qed.
+Print Assumptions c13_cell_rename_sound.
+
+(* CompactUnused, full: functions and globals removed.  Inputs: contents for the globals of m
+   and arguments, without pointers (what a harness can supply); the compacted module gets the
+   contents of the kept globals.  Result: the final contents of the kept globals and the
+   returned value, with the cells inside pointers renamed. *)
+Theorem c13_compact_unused_sound :
+  forall m, module_wf m -> calls_in_rangeb m = true -> gexprs_closedb m = true ->
+  forall fuel ep gs args cells ret,
+    forallb opfree gs = true -> forallb pfree args = true ->
+    run_entry fuel m ep gs args = Done (cells, ret) ->
+    let ug := uget (used_globals m (used_functions m)) in
+    run_entry fuel (compact_unused m) ep (keep ug gs) args
+    = Done (map (vren (cu_live m)) (keep ug cells), option_map (vren (cu_live m)) ret).
+Proof. exact compact_unused_sound. Qed.
+Print Assumptions c13_compact_unused_sound.
+
+(* the same for inputs that may contain pointers to live cells *)
+Theorem c13_compact_unused_sound_cells :
+  forall m, module_wf m -> calls_in_rangeb m = true -> gexprs_closedb m = true ->
+  forall fuel ep gs args cells ret,
+    forallb (ook (cu_live m)) gs = true -> forallb (vok (cu_live m)) args = true ->
+    run_entry fuel m ep gs args = Done (cells, ret) ->
+    run_entry fuel (compact_unused m) ep
+              (map (oren (cu_live m)) (keep (uget (used_globals m (used_functions m))) gs)) (map (vren (cu_live m)) args)
+    = Done (map (vren (cu_live m)) (keep (uget (used_globals m (used_functions m))) cells), oren (cu_live m) ret).
+Proof. exact compact_unused_sound_cells. Qed.
+Print Assumptions c13_compact_unused_sound_cells.
+
+(* no pointers in the results (every well-typed module: pointers cannot be stored or returned):
+   literally the same observable results *)
+Theorem c13_compact_unused_sound_pfree :
+  forall m, module_wf m -> calls_in_rangeb m = true -> gexprs_closedb m = true ->
+  forall fuel ep gs args cells ret,
+    forallb opfree gs = true -> forallb pfree args = true ->
+    run_entry fuel m ep gs args = Done (cells, ret) ->
+    forallb pfree cells = true -> opfree ret = true ->
+    let ug := uget (used_globals m (used_functions m)) in
+    run_entry fuel (compact_unused m) ep (keep ug gs) args = Done (keep ug cells, ret).
+Proof. exact compact_unused_sound_pfree. Qed.
+Print Assumptions c13_compact_unused_sound_pfree.
+
+Theorem c13_compact_unused_idempotent :
+  forall m, compact_unused (compact_unused m) = compact_unused m.
+Proof. exact compact_unused_idempotent. Qed.
+Print Assumptions c13_compact_unused_idempotent.
+
+Theorem c13_compact_constants_idempotent :
+  forall m, compact_constants (compact_constants m) = compact_constants m.
+Proof. exact compact_constants_idempotent. Qed.
+Print Assumptions c13_compact_constants_idempotent.
+
+(* ---- non-vacuity: dead global 0 and 2, live global 1 (written through a local pointer and
+        by a helper), a dead function, a local variable (its cell moves from 3 to 1) ---- *)
+Definition ex2_main : func :=
+  mkfunc "main" [] None [mklocal "t" 0 None]
+         [EGlobalVariable 1; ELiteral (LU32 7); ELocalVariable 0; ELoad 0; EBinary BAdd 3 1; ELoad 2; EBinary BAdd 5 4]
+         []
+         [SCall 1 [] None; SStore 2 1; SEmit 3 7; SStore 0 6; SReturn None]
+         [].
+Definition ex2_live : func :=
+  mkfunc "live" [] None [] [EGlobalVariable 1; ELiteral (LU32 3)] [] [SStore 0 1; SReturn None] [].
+Definition ex2_dead : func :=
+  mkfunc "dead" [] None [] [EGlobalVariable 2; ELiteral (LU32 1)] [] [SStore 0 1; SReturn None] [].
+Definition ex2_module : module :=
+  mkmodule [ex_u32] []
+           [mkglobal "a" SpPrivate None 0 None None 0; mkglobal "b" SpPrivate None 0 None None 0;
+            mkglobal "c" SpPrivate None 0 None None 0] []
+           [ex2_dead; ex2_live] [mkep "main" StCompute [1; 1; 1]%Z ex2_main] [].
+
+Example ex2_hypotheses :
+  module_wfb ex2_module = true /\ calls_in_rangeb ex2_module = true /\ gexprs_closedb ex2_module = true
+  /\ forallb opfree [Some (VU32 11); Some (VU32 22); None] = true.
+Proof. vm_compute. repeat split; reflexivity. Qed.
+
+Example ex2_runs :
+  run_entry 20 ex2_module 0 [Some (VU32 11); Some (VU32 22); None] [] = Done ([VU32 11; VU32 17; VU32 0], None)
+  /\ map g_name (m_globals (compact_unused ex2_module)) = ["b"]
+  /\ map f_name (m_functions (compact_unused ex2_module)) = ["live"]
+  /\ keep (uget (used_globals ex2_module (used_functions ex2_module))) [Some (VU32 11); Some (VU32 22); None] = [Some (VU32 22)]
+  /\ run_entry 20 (compact_unused ex2_module) 0 [Some (VU32 22)] [] = Done ([VU32 17], None)
+  /\ compact_unused (compact_unused ex2_module) = compact_unused ex2_module.
+Proof. vm_compute. repeat split; reflexivity. Qed.
+
+(* ====================================================================== *)
+(* InlineUserFunctions (model Passes/Inline.v of ir/inline.go with the nil policy, tied
+   structurally to the Go pass on every run).  Proved for ALL modules:                      *)
+
+(* after the pass no StmtCall to a function of the module is left in any body *)
+Theorem c13_inline_no_calls :
+  forall m m', inline_user_functions m = Some m' ->
+  forall f, In f (all_funcs m') ->
+  forall h, In h (block_calls (f_body f)) -> (List.length (m_functions m') <= h)%nat.
+Proof. exact inline_no_calls. Qed.
+Print Assumptions c13_inline_no_calls.
+
+(* module-scope data untouched, arenas of functions and entry points keep their length *)
+Theorem c13_inline_frame :
+  forall m m', inline_user_functions m = Some m' ->
+  m_types m' = m_types m /\ m_constants m' = m_constants m /\ m_globals m' = m_globals m
+  /\ m_global_exprs m' = m_global_exprs m /\ m_overrides m' = m_overrides m
+  /\ List.length (m_functions m') = List.length (m_functions m)
+  /\ List.length (m_entry_points m') = List.length (m_entry_points m).
+Proof. exact inline_frame. Qed.
+Print Assumptions c13_inline_frame.
+
+(* [inline_wf] in the form "module_wf is preserved" is FALSE for the faithful model: the caller's
+   ExprCallResult at handle r becomes Load(p) of the return slot with p > r (an operand that
+   follows its user), and that Load is covered by no Emit (the check reads such Loads as
+   "evaluated when used", Passes/Lenient.v) *)
+Theorem c13_inline_wf_refuted :
+  exists m m', module_wfb m = true /\ inline_user_functions m = Some m' /\ module_wfb m' = false.
+Proof. exact inline_breaks_fwd_free. Qed.
+Print Assumptions c13_inline_wf_refuted.
+
+(* statement kinds whose operands the pass leaves in the callee's numbering (recorded findings
+   inline:unremapped:KIND), against a Store, which is moved into the copied block *)
+Theorem c13_inline_keeps_unknown_statements :
+  forall base n t refs, String.eqb t "StmtImageStore" = false -> rstmt base n (SOther t refs) = SOther t refs.
+Proof. exact rstmt_keeps_other. Qed.
+Theorem c13_inline_keeps_compare_operand :
+  forall base n p f c v r, exists p' v' r', rstmt base n (SAtomic p f (Some c) v r) = SAtomic p' f (Some c) v' r'.
+Proof. exact rstmt_keeps_compare. Qed.
+Theorem c13_inline_moves_store :
+  forall base n p v, (p < n)%nat -> (v < n)%nat -> rstmt base n (SStore p v) = SStore (base + p)%nat (base + v)%nat.
+Proof. exact rstmt_moves_store. Qed.
